@@ -82,14 +82,17 @@ CHECKS["C11"] = dict(
 
 CHECKS["C12"] = dict(
     text="Fault enumeration by the solver over the real code: the struct-API layer request (C01 universe) and the LayerRef writers "
-         "(write_metadata, write_sboms, write_exec_d_programs) are executed from MIR with one injected I/O fault whose position k is an SMT "
+         "(write_metadata, write_sboms, write_exec_d_programs) and the phase entry point libcnb_runtime (as detect passing with a plan; as build "
+         "writing launch.toml, store.toml and three SBOM files after reading buildpack.toml, <platform>/env, the buildpack plan and an existing "
+         "store.toml) are executed from MIR with one injected I/O fault whose position k is an SMT "
          "variable ranging over every registered mutating or data-reading file-system call of the path (open-for-write, data write, read, "
          "mkdir, unlink, rmdir, chmod, opendir, copy, recursive removal; std::fs::File/BufWriter handles incl. their Drop are modelled). On "
-         "every path where the fault hits, the call must return Err. Counterexamples and a sample of faulted paths are replayed on the "
+         "every path where the fault hits, the call must return Err (phase: exit status neither 0 nor 100, on_error at most once). "
+         "Counterexamples, a sample of faulted paths and every phase fault are replayed on the "
          "real build with an LD_PRELOAD injector that fails the corresponding libc call with EIO.",
     design_ref="DESIGN.md §5 C12",
     technique="symbolic execution of rustc MIR (mirsym) with the fault position as an SMT variable + z3; replay with an LD_PRELOAD fault injector",
-    note="Covers the struct layer API and LayerRef writers; trait-API handling and phase-output writers are outside this check's claim. "
+    note="Covers the struct layer API, LayerRef writers and the phase outputs; faults inside trait-API handling are outside this check's claim. "
          "Stricter than the statement (any hit fault must surface as Err). Metadata probes (exists/is_dir) are not fault positions. " + BASE_NOTE)
 
 CHECKS["C03"] = dict(
